@@ -186,12 +186,17 @@ structure JSt where
   nowH : Int := 0                              -- virtual clock, hours
   dir : Nat → Option Nat := fun _ => none     -- the directory's ground truth
   prim : Prim := .up
+  /-- ground truth: what each server does (a hanging server is a server that is down) -/
+  srv : List Srv := [.up, .up]
   rows : Rows := {}
   confirmed : List (Nat × Nat × Int) := []    -- (user, pw, hour) the directory really confirmed
   /-- (user, pw) whose stored hash the directory's rejection evicted from the primary -/
   evicted : List (Nat × Nat) := []
   /-- … and a synchronisation has completed since -/
   evictedSynced : List (Nat × Nat) := []
+  /-- (user, pw) the directory rejected while the primary held its valid hash and could not be made
+  to drop it (primary unreachable, or the consulted cache copy was stale): known finding -/
+  lostEvict : List (Nat × Nat) := []
 
 def cacheH : Int := (cacheDur / hour : Nat)
 
@@ -212,10 +217,13 @@ def judgeLogin (j : JSt) (u pw : Nat) (res tr : String) (after : Rows) : String 
   let dirOK := pw != 0 && j.dir u == some pw
   if res != "A" && res != "R" then s!"viol login-error result {res}"
   else if pw == 0 && accepted then "viol empty-password-accepted the empty password was accepted"
-  else match traceVerdict tr with
+  else if (traceVerdict tr).isSome && traceVerdict tr != some dirOK then
+    s!"viol harness-directory-inconsistent bind trace {tr} but the directory holds {repr (j.dir u)}"
+  else match (if j.srv.any (· == Srv.up) then some dirOK else none) with
   | some v =>
-    if v != dirOK then s!"viol harness-directory-inconsistent bind trace {tr} but the directory holds {repr (j.dir u)}"
-    else if accepted != v then s!"viol dir-verdict-overridden a server answered {tr} but the login was {res}"
+    -- some server gives verdicts (ground truth of the harness, whether or not the code asked it)
+    if accepted != v then
+      s!"viol dir-verdict-overridden a server was answering (directory verdict {if v then "accept" else "reject"}, binds seen: {tr}) but the login was {res}"
     else if v && j.prim != .down &&
         !(match after.get true u with
           | some r => r.ok && r.subj == u && r.pw == pw && r.type == pwType && r.e == cacheH && r.c == cacheH
@@ -238,6 +246,8 @@ def judgeLogin (j : JSt) (u pw : Nat) (res tr : String) (after : Rows) : String 
         "viol offline-unconfirmed accepted offline without a directory-confirmed login of this user and password within the cache duration"
       else if j.evictedSynced.contains (u, pw) then
         "viol evicted-hash-survives-sync accepted offline a password the directory rejected (hash evicted from the primary, caches synchronised since)"
+      else if j.lostEvict.contains (u, pw) then
+        "viol eviction-lost-during-primary-outage accepted offline a password the directory rejected while the primary could not be made to drop its hash"
       else "ok"
 
 def judgeStep (j : JSt) (fs : List String) : JSt × String :=
@@ -255,13 +265,18 @@ def judgeStep (j : JSt) (fs : List String) : JSt × String :=
         | some u, some pw =>
           let verdict := judgeLogin j u pw res tr after
           let conf := traceVerdict tr == some true && pw != 0 && j.dir u == some pw
-          let evict := traceVerdict tr == some false && j.prim == .up &&
+          let rejected := j.srv.any (· == Srv.up) && !(pw != 0 && j.dir u == some pw)
+          let evict := rejected && j.prim == .up &&
                        ((j.rows.get true u).map (validFor u pw) == some true) && (after.get true u).isNone
+          let lost := rejected && j.prim != .up &&
+                      ((j.rows.get true u).map (validFor u pw) == some true) && (after.get true u).isSome
           let j2 := if conf then
                       { j' with confirmed := (u, pw, j.nowH) :: j.confirmed,
                                 evicted := j.evicted.filter (· != (u, pw)),
-                                evictedSynced := j.evictedSynced.filter (· != (u, pw)) }
+                                evictedSynced := j.evictedSynced.filter (· != (u, pw)),
+                                lostEvict := j.lostEvict.filter (· != (u, pw)) }
                     else if evict then { j' with evicted := (u, pw) :: j.evicted }
+                    else if lost then { j' with lostEvict := (u, pw) :: j.lostEvict }
                     else j'
           (j2, verdict)
         | _, _ => (j, "bad-op")
@@ -283,9 +298,15 @@ def judgeStep (j : JSt) (fs : List String) : JSt × String :=
         -- whoever writes the databases can put an evicted (still validly signed) record back: outside
         -- the eviction claim, which is about the synchronisation
         match u.toNat? with
-        | some u => ({ j' with evicted := j.evicted.filter (·.1 != u), evictedSynced := j.evictedSynced.filter (·.1 != u) }, "ok")
+        | some u =>
+          ({ j' with evicted := j.evicted.filter (·.1 != u),
+                     evictedSynced := j.evictedSynced.filter (·.1 != u),
+                     lostEvict := j.lostEvict.filter (·.1 != u) }, "ok")
         | none => (j, "bad-op")
-      | ["srv", _, _] => (j', "ok")
+      | ["srv", i, t] =>
+        match i.toNat?, parseSrv t with
+        | some i, some t => ({ j' with srv := j.srv.set i t }, "ok")
+        | _, _ => (j, "bad-op")
       | ["anon", _] => (j', "ok")
       | _ => (j, "bad-op")
   | _ => (j, "bad-op")
